@@ -67,6 +67,11 @@ def generate(prop, seed, tier):
             world["bad_gather"] = cons["id"]
     desc = dict(seed=seed, world=world, ops=[dict(op="run", cfg=cfg, faults=faults)], sched=sc,
                 bare=rng.random() < 0.35, fault_kind=kind)
+    if not desc["bare"] and rng.random() < 0.3:
+        # the plan is built by two threads at once (Plan carries a lock for that): the world's builder and a second
+        # thread that adds unrelated calls, gathers and sources of another registry to the same Plan
+        desc["concurrent_build"] = dict(n=rng.randrange(2, 7), depth=rng.randrange(-1, 6),
+                                        strategy=rng.choice([["rw", 0.2, 0.5], ["rw", 0.5, 0.5], ["pct", 3, 400], ["rw", 0.05, 0.3]]))
     return desc
 
 
@@ -101,6 +106,55 @@ def render_expected(chain, fn_name):
     return "\n".join(lines)
 
 
+def build_concurrently(desc):
+    """Build the world's Plan as the client of a simulation while a second simulated thread adds foreign nodes to the
+    same Plan.  Returns (built, [(node, recorded frames)] of the foreign nodes, sim)."""
+    import uberjob
+    from model.stores import SimStore
+    from simkit import prims, sched, shims
+
+    cb = desc["concurrent_build"]
+    world = desc["world"]
+    sim = sched.Sim(machine.mix_seed(desc["seed"], "build"), strategy=tuple(cb["strategy"]), max_steps=400_000)
+    holder, foreign = [], []
+
+    def other():
+        while not (holder and holder[0].plan is not None):
+            sim.yield_("wait-for-plan")
+        plan = holder[0].plan
+        reg2 = uberjob.Registry()
+        for k in range(cb["n"]):
+            kind = ("source", "call", "gather", "call")[k % 4]
+
+            def thunk():
+                if kind == "source":
+                    fr, node = B._frames(), reg2.source(plan, SimStore(f"foreign{k}"))
+                elif kind == "call":
+                    fr, node = B._frames(), plan.call(len, [k])
+                else:
+                    fr, node = B._frames(), plan.gather([plan.lit(k), k])
+                foreign.append((node, fr))
+
+            B._create(cb["depth"], thunk)
+            sim.yield_("foreign-node")
+
+    def client():
+        t = prims.Thread(target=other)
+        t.start()
+        b = B.build(world, True, holder)
+        t.join()
+        return b
+
+    shims.install(gran="line")
+    try:
+        built, exc = sim.run(client)
+    finally:
+        shims.uninstall()
+    if exc is not None:
+        raise exc
+    return built, foreign, sim
+
+
 def execute(prop, desc):
     import uberjob
     from uberjob._util import fully_qualified_name
@@ -115,9 +169,34 @@ def execute(prop, desc):
 
         shims.install_node_hash(desc["sched"].get("salt", 0))
         built = B.build_in_bare_thread(world)
+    pre = []
+    if desc.get("concurrent_build"):
+        from simkit import shims
+
+        shims.install_node_hash(desc["sched"].get("salt", 0))
+        built, foreign, bsim = build_concurrently(desc)
+        if bsim.hung is not None or bsim.thread_deaths:
+            pre.append(O.V("concurrent-build-failed", f"building one Plan from two threads: {bsim.hung or bsim.thread_deaths}"))
+        # every node carries the frames of the line that created it, whichever thread ran in between
+        for key, fr in sorted(built.frames.items(), key=repr):
+            if key[0] != "node" or ref.by_id(world)[key[1]]["kind"] == "item":
+                continue
+            got = chain_of(getattr(built.nodes[key[1]], "stack_frame", None))
+            if got != expected_chain(fr):
+                pre.append(O.V("wrong-creation-site", f"Plan built by two threads: node {key[1]} carries the symbolic "
+                                                      f"traceback {got}, it was created at {expected_chain(fr)}"))
+                break
+        for node, fr in foreign:
+            got = chain_of(getattr(node, "stack_frame", None))
+            if not pre and got != expected_chain(fr):
+                pre.append(O.V("wrong-creation-site", f"Plan built by two threads: a node created by the second thread "
+                                                      f"carries {got}, it was created at {expected_chain(fr)}"))
+                break
     rec = machine.run_op(hist, desc["ops"][0], 0, tape=tapes.get("0"), built=built)
-    viol = []
+    viol = list(pre)
     fired = {}
+    if desc.get("concurrent_build"):
+        fired["plan-built-by-two-threads"] = 1
     if isinstance(rec.exc, uberjob.CallError):
         e = rec.exc
         who = O.identify_error_call(rec)
